@@ -741,7 +741,7 @@ func (p *Prog) indexItemObligations(spec layoutSpec) []Ob {
 	}{{"base", false, false}, {"times", true, false}, {"keys", false, true}, {"full", true, true}}
 	for _, cb := range combos {
 		sp := spec.IndexItem[cb.name]
-		ob := Ob{Rule: "R9", Inst: "index-item:" + cb.name, Props: []string{"C13", "C11", "C01"}, Pos: "-", Nontrivial: true}
+		ob := Ob{Rule: "R9", Inst: "index-item:" + cb.name, Props: []string{"C13", "C11", "C01", "C09", "C10"}, Pos: "-", Nontrivial: true}
 		if openW == nil || write == nil || read == nil || sizeFn == nil {
 			ob.Status, ob.Msg = Undecided, "index.OpenWriter / index.Write / index.Read / Params.Size not all found"
 			obs = append(obs, ob)
